@@ -160,12 +160,16 @@ func judge(c Case, o *ev.Outcome, link int, s string, parent numref.Set, havePar
 	if asc {
 		o.Class("verdict/valid")
 	} else {
-		o.Class("verdict/may(overlapping-or-unordered-parts)")
+		o.Class("verdict/valid(overlapping-or-unordered-parts)")
 	}
 	if !accepted {
-		if asc {
-			o.Violate("valid-accepted", pre+"/rejected-valid/"+feature(p.Parts), "%s: ascending disjoint parts within the parent, yet rejected: %s", where, errText)
+		// every part is in order and the written set lies within the parent: the set "written in the
+		// statement" exists and must be presented sorted and coalesced, whatever the order of the parts
+		order := "ascending-parts"
+		if !asc {
+			order = "unordered-or-overlapping-parts"
 		}
+		o.Violate("valid-accepted", pre+"/rejected-valid/"+order+"/"+feature(p.Parts), "%s: every part has lo <= hi and the written set lies within the parent, yet rejected: %s", where, errText)
 		return nil
 	}
 	// accepted: result clauses
@@ -438,6 +442,21 @@ func gen(t *rapid.T) Case {
 	parent := numref.Set{bt}
 	decimal := c.Type == "decimal64"
 	for i := 0; i < n; i++ {
+		if i >= 1 && rapid.IntRange(0, 5).Draw(t, "repeat-earlier") == 0 {
+			// the very text of an earlier link, now under a (usually narrower) parent
+			s := c.Chain[rapid.IntRange(0, i-1).Draw(t, "earlier")]
+			c.Chain = append(c.Chain, s)
+			pr := numref.ParseRange(s, c.FD, decimal, parent)
+			if !pr.Syntax || pr.Excess || numref.Inverted(pr.Parts) {
+				break
+			}
+			w := numref.Normalize(pr.Parts)
+			if len(w) == 0 || !numref.Subset(w, parent) {
+				break
+			}
+			parent = w
+			continue
+		}
 		if rapid.IntRange(0, 24).Draw(t, "broken") == 0 {
 			c.Chain = append(c.Chain, rapid.SampledFrom(broken).Draw(t, "brokenString"))
 			break
@@ -561,9 +580,9 @@ func TestCheck(t *testing.T) {
 		Level: "exploration",
 		Rule: "a case is (built-in type, fraction-digits, chain of 1..4 range/length strings, route). Exhaustive part: for each type, every 1- and 2-part string over the boundary grid {min,max,type min/max +-1, 0 +-1} against the built-in parent, and every (parent part, child part) pair with the child grid taken relative to the parent part and the 2^31/2^32/2^63/2^64 neighbourhood; " +
 			"random part: chains with 1..5 parts per link, bounds from the grid relative to the current parent set or random inside it, optional blanks, trimmed/untrimmed decimal literals, and structurally broken strings. Each link is evaluated through typedef chains in module text (Entry.Type.Range/Length after Process) or directly through ParseRangesInt/ParseRangesDecimal. " +
-			"Oracle: big-integer interval sets (written set W, parent P): syntax error, lo>hi or W not within P => must be rejected; ascending disjoint parts within P => must be accepted; if accepted: set equals W, sorted, disjoint, coalesced, right fraction-digits, within P. Every judged case is non-trivial; distinct by (type, fd, route, chain)",
+			"Oracle: big-integer interval sets (written set W, parent P): syntax error, lo>hi or W not within P => must be rejected; otherwise must be accepted; if accepted: set equals W, sorted, disjoint, coalesced, right fraction-digits, within P. Every judged case is non-trivial; distinct by (type, fd, route, chain)",
 		Assumptions: []string{
-			"overlapping or descending parts that stay within the parent may be accepted or rejected; if accepted the result clauses apply",
+			"overlapping or descending parts are accepted by the library (it documents sorting and coalescing its input); a restriction whose parts each have lo <= hi and whose set lies within the parent must therefore be accepted whatever the order of its parts",
 			"literals goyang reads but YANG does not define (hex, octal, underscores, leading +, -0) and literals with more fraction digits than the type are never generated in judged classes",
 			"min/max are not offered to the direct API (it has no parent set)",
 		},
